@@ -1,6 +1,7 @@
 import ScVerif.Base.Line
 import ScVerif.C20.Vending
 import ScVerif.C20.VendingCode
+import ScVerif.C20.VendConc
 import ScVerif.C20.Esc
 /-! Driver ops of the Vending model: `vend.conv`, `vend.seq`, `vend.opts`. -/
 namespace ScVerif.C20.Vending
@@ -102,6 +103,34 @@ def handle? (toks : List String) : Option String :=
     let inv ← parseInv? inv
     let ops ← ops.mapM parseOp?
     pure (runSeq inv ops)
+  | "vend.conc" :: stock :: sched :: progs => do
+    -- stock: `used;remaining`; progs: one token per thread, quantities `unit:amount` separated by `,`;
+    -- sched: `,`-separated thread indices; afterwards every thread finishes in index order
+    let st ← match stock.splitOn ";" with
+      | [u, r] => do
+        let u ← parseQty? u
+        let r ← parseQty? r
+        pure ({ used := u, remaining := r } : Stock)
+      | _ => none
+    let progs ← progs.mapM (fun p => if p = "-" then some [] else (p.splitOn ",").mapM (fun q => do
+      let q ← parseQty? q
+      q))
+    let sched ← (if sched = "-" then some [] else (sched.splitOn ",").mapM (fun s => (parseNat? s).map Gau.Ev.step))
+    let c0 : Gau.Cfg Stock Unit := ⟨st, 0, progs.map (fun p => Gau.Thread.ofCalls (p.map dispenseCall))⟩
+    let c1 := c0.run sched
+    let c2 := c1.run (Gau.drainSched c1.threads)
+    -- a committed call answers the conversion error when its quantity cannot be converted for the record it
+    -- returned (which is then the unchanged record; presence and units never change)
+    let showRes (q : Qty) : Gau.Res Stock Unit → String
+      | .ok r => if (dispenseStock q r).isNone then "err:Unknown" else "ok"
+      | .err _ => "err"
+      | .aborted => "err:Aborted"
+    let amp (xs : List String) : String := if xs.isEmpty then "-" else "&".intercalate xs
+    let showTh (p : List Qty × Gau.Thread Stock Unit) : String :=
+      (if p.2.cur.isSome || !p.2.todo.isEmpty then "unfinished:" else "") ++
+      amp ((p.1.zip p.2.results.reverse).map (fun qr => showRes qr.1 qr.2)) ++ "/" ++ amp (p.2.results.map (fun _ => "rl"))
+    pure ("u=" ++ showQty c2.store.used ++ " r=" ++ showQty c2.store.remaining ++ " ld=" ++ showQty c2.store.lastDispensed
+      ++ " # " ++ " ; ".intercalate ((progs.zip c2.threads).map showTh))
   | "vend.opts" :: opts => do
     let opts ← opts.mapM parseOpt?
     let a := calcModelArgs opts
